@@ -127,6 +127,12 @@ goal		:  initlex sect1 sect1end sect2 initforrule
 
 			def_rule = mkstate( -pat );
 
+			/* The default rule matches any character, newline
+			 * included, so it takes part in line counting.
+			 */
+			if ( ccl_has_nl[pat] )
+				rule_has_nl[num_rules] = true;
+
 			/* Remember the number of the default rule so we
 			 * don't generate "can't match" warnings for it.
 			 */
